@@ -461,7 +461,11 @@ def random_mode(n, out_path, seed):
         else:
             nv = rng.choice([3, 4, 5, 6])
             atoms = [atom(rng, nv) for _ in range(rng.choice([3, 4, 5, 6, 7, 8]))]
-            log.case("randcs", "none", False, conj_of(atoms), NOCTX, NONE)
+            ctx = NOCTX
+            if rng.random() < 0.4:      # some of the variables declared: bare and annotated uses of declared variables
+                ctx = {"vars": [["x%d" % v, rng.choice([NAT, BOOL, BOOL, fun(NAT, BOOL), lst(NAT)])]
+                                for v in range(nv) if rng.random() < 0.5], "svars": []}
+            log.case("randcs", "decl" if ctx["vars"] else "none", bool(ctx["vars"]), conj_of(atoms), ctx, NONE)
     # (an event of a history is reproduced only by re-running the history: the event records how)
     history_mode(max(600, n // 2), log, seed, {"gen": {"mode": "random", "n": n, "seed": seed}})
     log.close()
